@@ -161,6 +161,7 @@ func init() {
 		pi := func(n string) int { return model.PoolIndex(pool, n) }
 		alpha := []VOp{
 			{K: "create", DS: "A"}, {K: "delete", DS: "A"}, {K: "rename", DS: "A", To: "B"},
+			{K: "rename", DS: "A", To: "S"}, // onto the survivor's name: has to be refused
 			{K: "create", DS: "B"}, {K: "delete", DS: "B"},
 			{K: "batch", DS: "A", Ents: []VEnt{{"e1", pi("v2r2")}}},
 			{K: "batch", DS: "A", Ents: []VEnt{{"e2", pi("r1")}, {"e3", pi("v1")}}},
